@@ -1,12 +1,15 @@
 (* C07 for TTML through the plain view, at byte level: from the round trip through bytes (Proofs/TtmlBytes.v). *)
 From Coq Require Import List ZArith NArith Bool Lia.
-From Astisub Require Import Kit.Base Kit.Str Kit.Xml Kit.XmlParse Model.Dur Model.Ttml Model.Plain Model.PlainTtml.
-From Astisub Require Import Proofs.PlainProofs Proofs.TtmlSpec Proofs.TtmlDocSpec Proofs.TtmlBytes.
+From Astisub Require Import Kit.Base Kit.Str Kit.Xml Kit.XmlParse Kit.XmlEsc Model.Dur Model.Ttml Model.TtmlGo Model.Plain Model.PlainTtml.
+From Astisub Require Import Proofs.PlainProofs Proofs.TtmlSpec Proofs.TtmlDocSpec Proofs.TtmlBytes Proofs.TtmlLegal.
 Import ListNotations.
 
 (* representability of a plain cue list for TTML: at least one cue, times in [0, max_int64], at least one line per
-   cue, no line break inside a line's text (it would be read as a line boundary) *)
-Definition ttml_plain_okb (p : plain) : bool := repr_doc (ttml_of_plain p).
+   cue, no line break inside a line's text (it would be read as a line boundary), and every text XML-legal (valid
+   UTF-8 of XML 1.0 characters: Go's encoder writes U+FFFD for anything else - [ttml_enc] models that) *)
+Definition ttml_plain_okb (p : plain) : bool := repr_doc (ttml_of_plain p) && legal_doc (ttml_of_plain p).
+Lemma ttml_plain_ok_parts p : ttml_plain_okb p = true -> repr_doc (ttml_of_plain p) = true /\ legal_doc (ttml_of_plain p) = true.
+Proof. unfold ttml_plain_okb. intros H. apply andb_true_iff in H. exact H. Qed.
 Definition ttml_plain_ok (p : plain) : Prop := ttml_plain_okb p = true.
 
 Lemma ttml_to_plain_written p : ttml_to_plain (written_value (ttml_of_plain p)) = ptrunc 1000000 p.
@@ -19,8 +22,9 @@ Qed.
 
 Theorem ttml_plain_faithful : plain_faithful 1000000 ttml_plain_ok ttml_enc ttml_dec.
 Proof.
-  intros p Hp. destruct (write_read_bytes (ttml_of_plain p) ttml_default_indent Hp eq_refl) as (b & t & Hw & Hx & Hr).
-  exists b. split; [exact Hw|]. unfold ttml_dec, dec_with, read_ttml_bytes. rewrite Hx, Hr. f_equal.
+  intros p Hp0. destruct (ttml_plain_ok_parts p Hp0) as [Hp Hl].
+  destruct (write_read_bytes (ttml_of_plain p) ttml_default_indent Hp eq_refl) as (b & t & Hw & Hx & Hr).
+  exists b. split; [unfold ttml_enc; rewrite (write_ttml_bytes_go_legal _ ttml_default_indent Hp Hl); exact Hw|]. unfold ttml_dec, dec_with, read_ttml_bytes. rewrite Hx, Hr. f_equal.
   apply ttml_to_plain_written.
 Qed.
 
@@ -32,11 +36,27 @@ Proof. vm_compute. reflexivity. Qed.
 From Astisub Require Import Kit.XmlParse2 Proofs.TtmlDoc Proofs.Parse2Written.
 Theorem ttml_plain_faithful2 : plain_faithful 1000000 ttml_plain_ok ttml_enc ttml_dec2.
 Proof.
-  intros p Hp. destruct (write_read (ttml_of_plain p) ttml_default_indent Hp eq_refl) as (t0 & Hw & Hread).
+  intros p Hp0. destruct (ttml_plain_ok_parts p Hp0) as [Hp Hl].
+  destruct (write_read (ttml_of_plain p) ttml_default_indent Hp eq_refl) as (t0 & Hw & Hread).
   assert (Hb : write_ttml_bytes ttml_default_indent (ttml_of_plain p) = Ok (print_node print_name ttml_default_indent 0 t0))
     by (unfold write_ttml_bytes; rewrite Hw; reflexivity).
   assert (Hi : indent_ok ttml_default_indent = true) by reflexivity.
   destruct (parse2_written (ttml_of_plain p) ttml_default_indent _ Hi Hb) as (t1 & Hw1 & Hp2). rewrite Hw in Hw1. inversion Hw1; subst t1.
-  exists (print_node print_name ttml_default_indent 0 t0). split; [exact Hb|].
+  exists (print_node print_name ttml_default_indent 0 t0).
+  split; [unfold ttml_enc; rewrite (write_ttml_bytes_go_legal _ ttml_default_indent Hp Hl); exact Hb|].
   unfold ttml_dec2, dec_with, read_ttml_bytes2. rewrite Hp2, Hread. f_equal. apply ttml_to_plain_written.
 Qed.
+
+(* the premise [legal_doc] cannot be dropped: the plain cue list whose only text is "a", byte 1, "b" is representable
+   (times, lines, no line break) but byte 1 is not an XML character; Go's encoder writes U+FFFD, which is what is read
+   back (second audit, N4; replayed by the conversion suites, which now carry such runes into TTML destinations) *)
+Definition ex_plain_illegal : plain := [(1000000000%Z, 2000000000%Z, [[97; 1; 98]%N])].
+Example ttml_plain_illegal_not_faithful :
+  repr_doc (ttml_of_plain ex_plain_illegal) = true /\ ttml_plain_okb ex_plain_illegal = false /\
+  exists b, ttml_enc ex_plain_illegal = Ok b /\
+            ttml_dec2 b = Ok [(1000000000%Z, 2000000000%Z, [[97; 239; 191; 189; 98]%N])].
+Proof.
+  split; [vm_compute; reflexivity|]. split; [vm_compute; reflexivity|].
+  exists (match ttml_enc ex_plain_illegal with Ok b => b | _ => [] end). split; vm_compute; reflexivity.
+Qed.
+Print Assumptions ttml_plain_faithful2.
